@@ -25,7 +25,7 @@ func init() {
 		c01DeepChild(spec)
 		os.Exit(0)
 	}
-	register(&Prop{ID: "C01", Module: "V.C01.Check", Gen: c01Gen, Quick: 900, Thorough: 30000, Shard: 60})
+	register(&Prop{ID: "C01", Module: "V.C01.Check", Gen: c01Gen, Quick: 600, Thorough: 30000, Shard: 60})
 }
 
 // ---------------------------------------------------------------- guarded calls
@@ -406,6 +406,54 @@ func c01Gen(r *Rng, tier string, n int) []Case {
 	defer func() {}()
 
 	repo := c02RepoSources()
+
+	// parser state: several structural oddities in front of constructs that read p.depth / p.inEdgeGroup /
+	// the look-ahead buffers; and the check that nothing leaks from a complete text A into what follows
+	for _, a := range []string{"}\n\n", "}}\n\n", "}}}\n\n", "]\n\n", "))\n\n", "}]\n}\n\n", "a: {b}\n}}\n\n", "(a -> b\n\n", "(a -> b)[\n\n", "x: ${a\n\n"} {
+		for _, b := range []string{"x: |md a|", "a: {b: |md c\n d|}", "k: [|md z|]", "(a -> b)c): d)", "\"\"\" q \"\"\"\nx", "x: [a; {b: c}]"} {
+			if c01GiveUp() {
+				break
+			}
+			cases = append(cases, c01StateCase(a, b, "state-corpus"))
+		}
+	}
+	for i := 0; i < n/4 && !c01GiveUp(); i++ {
+		s := c01GenCombo(r)
+		switch r.Intn(6) {
+		case 0:
+			cases = append(cases, c01EntryCase(r.Range(2, 3), s, "combo-entry"))
+		default:
+			cases = append(cases, c01ParseCase([]byte(s), "combo"))
+		}
+	}
+	for i := 0; i < n/6 && !c01GiveUp(); i++ {
+		var b string
+		switch r.Intn(5) {
+		case 0:
+			b = c02GenD2(r)
+		case 1:
+			b = c01GenFrag(r, 0)
+		case 2:
+			b = repo[r.Intn(len(repo))]
+			if len(b) > 1500 {
+				b = b[:1500]
+			}
+		default:
+			b = c01GenCombo(r)
+		}
+		cases = append(cases, c01StateCase(c01GenStateA(r), b, "state"))
+	}
+	for i := 0; i < n/10 && !c01GiveUp(); i++ {
+		s := c02GenD2(r)
+		if r.Chance(0.4) {
+			s = repo[r.Intn(len(repo))]
+			if len(s) > 4000 {
+				s = s[:4000]
+			}
+		}
+		cases = append(cases, c01ParseCase([]byte(c01Disturb(r, s)), "disturbed"))
+	}
+
 	for budget := n; budget > 0; budget-- {
 		if c01GiveUp() {
 			break
